@@ -838,4 +838,76 @@ theorem eval_expected_lemma {V : Type} (I : Interp V) (hI : I.SignLaw) (e : E) :
   unfold expected
   rw [eval_strip, eval_conv I hI]
 
+/-! ### `paren`-free trees, injectivity of the printers -/
+
+mutual
+theorem noParen_strip : ∀ (e : E), noParen (strip e) = true
+  | .atom _ => by simp [strip, noParen]
+  | .bin o l r => by simp [strip, noParen, noParen_strip l, noParen_strip r]
+  | .pre q e => by simp [strip, noParen, noParen_strip e]
+  | .pow w a b => by simp [strip, noParen, noParen_strip a, noParen_strip b]
+  | .paren e => by simp [strip, noParen_strip e]
+  | .ite c t r => by simp [strip, noParen, noParen_strip c, noParen_strip t, noParenEls_strip r]
+  | .call f as => by simp [strip, noParen, noParenArgs_strip as]
+theorem noParenEls_strip : ∀ (r : Els), noParenEls (stripEls r) = true
+  | .els e => by simp [stripEls, noParenEls, noParen_strip e]
+  | .elif c t r => by simp [stripEls, noParenEls, noParen_strip c, noParen_strip t, noParenEls_strip r]
+theorem noParenArgs_strip : ∀ (as : Args), noParenArgs (stripArgs as) = true
+  | .nil => by simp [stripArgs, noParenArgs]
+  | .cons e r => by simp [stripArgs, noParenArgs, noParen_strip e, noParenArgs_strip r]
+end
+
+mutual
+theorem strip_of_noParen : ∀ (e : E), noParen e = true → strip e = e
+  | .atom _, _ => by simp [strip]
+  | .bin o l r, h => by
+    simp only [noParen, Bool.and_eq_true] at h
+    simp [strip, strip_of_noParen l h.1, strip_of_noParen r h.2]
+  | .pre q e, h => by
+    simp only [noParen] at h
+    simp [strip, strip_of_noParen e h]
+  | .pow w a b, h => by
+    simp only [noParen, Bool.and_eq_true] at h
+    simp [strip, strip_of_noParen a h.1, strip_of_noParen b h.2]
+  | .paren e, h => by simp [noParen] at h
+  | .ite c t r, h => by
+    simp only [noParen, Bool.and_eq_true] at h
+    simp [strip, strip_of_noParen c h.1.1, strip_of_noParen t h.1.2, stripEls_of_noParen r h.2]
+  | .call f as, h => by
+    simp only [noParen] at h
+    simp [strip, stripArgs_of_noParen as h]
+theorem stripEls_of_noParen : ∀ (r : Els), noParenEls r = true → stripEls r = r
+  | .els e, h => by
+    simp only [noParenEls] at h
+    simp [stripEls, strip_of_noParen e h]
+  | .elif c t r, h => by
+    simp only [noParenEls, Bool.and_eq_true] at h
+    simp [stripEls, strip_of_noParen c h.1.1, strip_of_noParen t h.1.2, stripEls_of_noParen r h.2]
+theorem stripArgs_of_noParen : ∀ (as : Args), noParenArgs as = true → stripArgs as = as
+  | .nil, _ => by simp [stripArgs]
+  | .cons e r, h => by
+    simp only [noParenArgs, Bool.and_eq_true] at h
+    simp [stripArgs, strip_of_noParen e h.1, stripArgs_of_noParen r h.2]
+end
+
+/-- the printer for a table is injective up to `paren` nodes -/
+theorem pr_injective (T : Tbl) (hT : TblOK T) (e e' : E) (h : pr T 0 e = pr T 0 e') : strip e = strip e' := by
+  obtain ⟨f1, h1⟩ := parse_pr T hT e
+  obtain ⟨f2, h2⟩ := parse_pr T hT e'
+  have a := monoTop T h1 (Nat.le_max_left f1 f2)
+  have b := monoTop T h2 (Nat.le_max_right f1 f2)
+  rw [h] at a
+  rw [a] at b
+  exact Option.some.inj b
+
+
+theorem mprint_injective (e e' : E) (h : mprint e = mprint e') : expected e = expected e' := by
+  obtain ⟨f1, h1⟩ := parse_mprint_lemma e
+  obtain ⟨f2, h2⟩ := parse_mprint_lemma e'
+  have a := monoTop _ h1 (Nat.le_max_left f1 f2)
+  have b := monoTop _ h2 (Nat.le_max_right f1 f2)
+  rw [h] at a
+  rw [a] at b
+  exact Option.some.inj b
+
 end PymocaVerif.ExprGrammar
